@@ -372,6 +372,26 @@ func checkChainAssembly(c *Check) {
 	}
 	c.Cond(okP, key+":parent", p.FuncPos(cc), "request scope's parent is the application injector", "the request scope is not parented to the application injector")
 
+	// Use keeps registration order: f.handlers = append(f.handlers, handlers...)
+	if use := p.Meth("flamego", "Flame", "Use"); use != nil {
+		okUse := false
+		for _, u := range p.FieldUses(p.Field("flamego", "Flame", "handlers")) {
+			if u.Kind != "store" || u.Fn != use {
+				continue
+			}
+			a := asCall(u.Instr.(*ssa.Store).Val)
+			okUse = a != nil && callName(&a.Call) == "builtin.append" && vField(vParam(use, 0), "handlers")(a.Call.Args[0]) && vParam(use, 1)(a.Call.Args[1])
+			if !okUse {
+				c.Bad(p.FuncKey(use)+":order", p.Pos(u.Instr.Pos()), "Use does not append the new middleware after the existing ones: "+vstr(u.Instr.(*ssa.Store).Val))
+			}
+		}
+		if okUse {
+			c.OK(p.FuncKey(use)+":order", p.FuncPos(use), "handlers = append(handlers, new...): middleware runs in registration order", 1)
+		}
+	} else {
+		c.Anchor("Flame.Use")
+	}
+
 	// the route closure and the not-found closure hand their handler list to the creator and run it
 	for _, site := range []struct{ typ, meth string }{{"router", "Route"}, {"router", "NotFound"}} {
 		m := p.Meth("flamego", site.typ, site.meth)
